@@ -75,6 +75,84 @@ theorem window_const (H : Hmacs) (alg : Alg) (secret : Bytes) (period digits t t
 /-- the counter is the 8-byte big-endian time step -/
 theorem counterBytes_length (c : Nat) : (counterBytes c).length = 8 := by simp [counterBytes]
 
+/-! ### The code as a number (RFC 4226 §5.3 step 3, RFC 6238 §4.2) -/
+
+/-- a digit string read as a decimal number (statement-side reading function) -/
+def numVal (s : List Char) : Nat := s.foldl (fun acc c => acc * 10 + (c.toNat - 48)) 0
+
+/-- a byte string read as a big-endian number (statement-side reading function) -/
+def beVal (b : Bytes) : Nat := b.foldl (fun acc x => acc * 256 + x.toNat) 0
+
+theorem numVal_append_single (s : List Char) (c : Char) :
+    numVal (s ++ [c]) = numVal s * 10 + (c.toNat - 48) := by
+  simp [numVal, List.foldl_append]
+
+theorem digitChar_toNat (n : Nat) : (digitChar n).toNat - 48 = n % 10 := by
+  have h : n % 10 < 10 := Nat.mod_lt _ (by decide)
+  unfold digitChar
+  generalize n % 10 = k at h
+  have : k = 0 ∨ k = 1 ∨ k = 2 ∨ k = 3 ∨ k = 4 ∨ k = 5 ∨ k = 6 ∨ k = 7 ∨ k = 8 ∨ k = 9 := by omega
+  rcases this with h | h | h | h | h | h | h | h | h | h <;> subst h <;> decide
+
+/-- the `d`-digit rendering of `n` reads back as `n mod 10^d` -/
+theorem numVal_decimal (d n : Nat) : numVal (decimal d n) = n % 10 ^ d := by
+  induction d generalizing n with
+  | zero => simp [decimal, numVal, Nat.mod_one]
+  | succ d ih =>
+    show numVal (decimal d (n / 10) ++ [digitChar n]) = _
+    rw [numVal_append_single, ih, digitChar_toNat, Nat.pow_succ, Nat.mul_comm (10 ^ d) 10, Nat.mod_mul]
+    generalize n / 10 % 10 ^ d = k
+    omega
+
+/-- **the code is `Truncate(HMAC(K, T)) mod 10^Digit`**: for every HMAC function, secret, positive period,
+    1 ≤ digits ≤ 19 and instant, the string `value_at` returns, read as a decimal number, is the dynamic
+    truncation of the HMAC of the 8-byte time step under the secret, reduced modulo `10 ^ digits` -/
+theorem C19_code_value (H : Hmacs) (alg : Alg) (secret : Bytes) (period digits time : Nat)
+    (hp : 1 ≤ period) (hd : 1 ≤ digits) (hd' : digits < 20) :
+    ∃ cs : List Char, (valueAt H alg secret period digits time).1 = .code cs
+      ∧ numVal cs = dynTrunc (H.run alg secret (counterBytes (time / period))) % 10 ^ digits := by
+  have h1 : period ≠ 0 := by omega
+  have h2 : ¬ (digits ≥ 20) := by omega
+  have h3 : digits ≠ 0 := by omega
+  simp only [valueAt, h1, h2, ↓reduceIte]
+  refine ⟨_, rfl, ?_⟩
+  simp only [codeString, h3, ↓reduceIte, numVal_decimal]
+  exact Nat.mod_mod _ _
+
+/-- **the HMAC message is the time step, big endian in 8 bytes** (RFC 4226 §5.2: the counter is an
+    8-byte value): read back as a number the message is the time step modulo 2^64 -/
+theorem counterBytes_value (c : Nat) : beVal (counterBytes c) = c % 2 ^ 64 := by
+  have r8 : List.range 8 = [0, 1, 2, 3, 4, 5, 6, 7] := by decide
+  have tn : ∀ n : Nat, (UInt8.ofNat (n % 256)).toNat = n % 256 := by
+    intro n; simp [UInt8.toNat_ofNat']
+  have cb : counterBytes c =
+      [UInt8.ofNat (c / 72057594037927936 % 256), UInt8.ofNat (c / 281474976710656 % 256),
+       UInt8.ofNat (c / 1099511627776 % 256), UInt8.ofNat (c / 4294967296 % 256),
+       UInt8.ofNat (c / 16777216 % 256), UInt8.ofNat (c / 65536 % 256), UInt8.ofNat (c / 256 % 256),
+       UInt8.ofNat (c % 256)] := by
+    simp [counterBytes, r8]
+  rw [cb]
+  simp only [beVal, List.foldl, tn]
+  omega
+
+/-- two different time steps (below 2^64, as every `u64` time gives) never share an HMAC message -/
+theorem counterBytes_injective (c c' : Nat) (h : c < 2 ^ 64) (h' : c' < 2 ^ 64)
+    (e : counterBytes c = counterBytes c') : c = c' := by
+  have := congrArg beVal e
+  rw [counterBytes_value, counterBytes_value, Nat.mod_eq_of_lt h, Nat.mod_eq_of_lt h'] at this
+  exact this
+
+/-- the time step is `⌊time / period⌋`: instants in different windows hash different messages -/
+theorem C19_windows_hash_distinct (period t t' : Nat) (ht : t < 2 ^ 64) (ht' : t' < 2 ^ 64)
+    (h : t / period ≠ t' / period) : counterBytes (t / period) ≠ counterBytes (t' / period) := by
+  intro e
+  exact h (counterBytes_injective _ _ (Nat.lt_of_le_of_lt (Nat.div_le_self _ _) ht)
+    (Nat.lt_of_le_of_lt (Nat.div_le_self _ _) ht') e)
+
+/-! Non-vacuity: a concrete code (RFC 4226 appendix D style) -/
+example : numVal ['0', '8', '1', '8', '0', '4'] = 81804 := by decide
+example : beVal (counterBytes 59) = 59 := by decide
+
 /-! ### URI handling -/
 
 theorem stepPair_period_zero (a : Acc) : stepPair a (kPeriod, ['0']) = .error .int := by
